@@ -2,6 +2,8 @@ pub mod error;
 pub mod geo;
 pub mod hijri_date;
 pub mod prayer_times;
+#[cfg(ipt_verif)]
+pub mod verif_hooks;
 
 use std::fmt::{Debug, Display};
 use std::ops::RangeInclusive;
